@@ -7,6 +7,13 @@ ENGINES = [
 NOTES = "All checks rebuild from /repo's current working tree. Exit 2 = internal error of the machinery (never a verdict)."
 NOT_APPLICABLE = {}
 META = {
+    "C15": {
+        "engine": "explicit-state search + fault enumeration",
+        "design_ref": "DESIGN.md section 3 C15",
+        "technique": "explicit-state BFS to closure over operation histories of the real IndexedStore on a real Bolt file (state = history, successor = replay + 1 op), map reference model, exhaustive fault placement at every underlying Put/Delete, reopen after every transition",
+        "level_text": "The search closes (125 states, all 40 operations from each). Every transition is executed on a fresh real Bolt file and checked against a map model: result code, raw dump (data/index bijection), Get, every List/ReverseList query, reopen; every write inside every transition is failed once and the operation must fail leaving no trace.",
+        "level_note": "Trusted: bbolt (commit atomicity, durability). Universe: 3 ids (one a prefix of another), 2 secondary index values, 2 payloads.",
+    },
     "C20": {
         "engine": "bounded exhaustive enumeration + reference decision",
         "design_ref": "DESIGN.md section 3 C20",
